@@ -1,0 +1,88 @@
+//! WAL writer driven step by step (append / flush / sync / rotate), for runs under
+//! injected I/O faults. The caller decides when the session "crashes": `crash`
+//! forgets the writer without running its destructor (no final flush, no fsync).
+
+use std::path::{Path, PathBuf};
+
+use crate::wal::manager::Wal;
+use crate::wal::{list_segment_ids, segment_name, Options};
+
+/// An open WAL (uncompressed, default options) in a directory.
+pub struct Session {
+	wal: Option<Wal>,
+	dir: PathBuf,
+}
+
+/// Outcome of one step.
+#[derive(Debug, Clone, PartialEq, Eq)]
+pub enum Step {
+	/// The call returned Ok.
+	Ok,
+	/// `Wal::append` refused the record before any I/O (empty record).
+	Rejected,
+	/// The call returned an error.
+	Err(String),
+}
+
+fn step<T>(r: crate::wal::Result<T>) -> Step {
+	match r {
+		Ok(_) => Step::Ok,
+		Err(e) => Step::Err(e.to_string()),
+	}
+}
+
+impl Session {
+	/// Opens (creates) the WAL in `dir`.
+	pub fn open(dir: &Path) -> Result<Session, String> {
+		let wal = Wal::open(dir, Options::default()).map_err(|e| e.to_string())?;
+		Ok(Session {
+			wal: Some(wal),
+			dir: dir.to_path_buf(),
+		})
+	}
+
+	/// `Wal::append`.
+	pub fn append(&mut self, rec: &[u8]) -> Step {
+		if rec.is_empty() {
+			return match self.wal.as_mut().unwrap().append(rec) {
+				Ok(_) => Step::Ok,
+				Err(_) => Step::Rejected,
+			};
+		}
+		step(self.wal.as_mut().unwrap().append(rec))
+	}
+
+	/// `Wal::flush` (BufWriter to the OS, no fsync).
+	pub fn flush(&mut self) -> Step {
+		step(self.wal.as_mut().unwrap().flush())
+	}
+
+	/// `Wal::sync` (flush + fsync).
+	pub fn sync(&mut self) -> Step {
+		step(self.wal.as_mut().unwrap().sync())
+	}
+
+	/// `Wal::rotate`.
+	pub fn rotate(&mut self) -> Step {
+		step(self.wal.as_mut().unwrap().rotate())
+	}
+
+	/// The segment files present in the directory, oldest first.
+	pub fn segments(&self) -> Vec<PathBuf> {
+		let ids = list_segment_ids(&self.dir, Some("wal")).unwrap_or_default();
+		ids.into_iter().map(|id| self.dir.join(segment_name(id, "wal"))).collect()
+	}
+
+	/// Process crash: the writer is forgotten, its destructor never runs.
+	pub fn crash(&mut self) {
+		if let Some(w) = self.wal.take() {
+			std::mem::forget(w);
+		}
+	}
+}
+
+impl Drop for Session {
+	fn drop(&mut self) {
+		self.crash();
+	}
+}
